@@ -129,6 +129,12 @@ def run(ctx, out):
             first = "ok 0 PrintLine {attribute=65 text=s:" + C.hexs(b"A" * (n - 1)) + "} n=" + str(len(p))
         want.append(first + " ; err io:eof n=1")
         kinds.append("header")
+        if n > 0:
+            # the WRITER: the packet the reader has just been given, decoded and written again by the real serialiser
+            # (`write_packet` = `zvt_serialize` + `write_all`), must come back with the same 3- / 5-byte header
+            ops.append(f"dec packets::PrintLine {C.hexs(p)}")
+            want.append("ok {attribute=65 text=s:" + C.hexs(b"A" * (n - 1)) + "} rem=- reenc=" + C.hexs(p))
+            kinds.append("header")
     impl, model = ctx.pair(ops)
     out.compare("read", ops, impl, model)
     out.evaluations = len(ops)
@@ -140,6 +146,6 @@ def run(ctx, out):
             out.oracle_failures.append({"op": o[:300], "observed": "…" + r[max(0, i - 60):i + 120], "expected": "…" + w[max(0, i - 60):i + 120], "key": o[:120],
                                         "what": "a chunked stream of packets is not returned packet by packet with exact consumption / a truncated packet is not an error" if kd != "header" else "writer's length header and reader's interpretation disagree"})
     out.rule = ("streams of 1-3 canonical reply packets: every end-of-stream position x every chunking (all 2^(L-1) for short prefixes, sampled above) with a Pending between chunks; "
-                "60 longer streams with unparsable packets and dangling bytes x 8 chunkings; header agreement for body lengths 0..599, powers of two and page multiples, 65526..65535 (thorough: all 0..65535); chunkings also with pauses of 6 s and 61 s between chunks. "
+                "60 longer streams with unparsable packets and dangling bytes x 8 chunkings; header agreement (reader on reference headers, and the real writer on the decoded packet) for body lengths 0..599, powers of two and page multiples, 65526..65535 (thorough: all 0..65535); chunkings also with pauses of 6 s and 61 s between chunks. "
                 "Expected outcomes (packet values, bytes consumed per read, eof position) computed independently; implementation = model = expectation. non-trivial = distinct (stream, chunking)")
     out.samples = [ops[3][:200], {"op": ops[-1][:60] + "…", "impl": impl[-1][-60:]}]
